@@ -75,6 +75,17 @@ Proof.
 Qed.
 
 
+(* releasing held-back closes changes neither ids, peers nor the closing flags of the tasks *)
+Lemma ungate_in s p older l t : In t (ungate s p older l) ->
+  exists t0, In t0 l /\ t_id t = t_id t0 /\ t_peer t = t_peer t0 /\ t_closing t = t_closing t0.
+Proof.
+  unfold ungate. intros H. apply in_map_iff in H. destruct H as (t0 & E & H0). exists t0.
+  destruct ((t_peer t0 =? p) && _); subst t; cbn; auto.
+Qed.
+
+Lemma ungate_ids s p older l : map t_id (ungate s p older l) = map t_id l.
+Proof. unfold ungate. rewrite map_map. apply map_ext. intros t. destruct ((t_peer t =? p) && _); auto. Qed.
+
 (* state after a list of events (None: stuck on the way) *)
 Fixpoint exec (c : cfg) (s : st) (l : list op) : option st :=
   match l with
@@ -111,7 +122,7 @@ Qed.
 
 Lemma signal_core s k s' ev : signal s k = (s', ev) ->
   exists l, s' = set_tasks s l /\ tasks_sub k (tasks s) l /\
-            (ev = [] \/ exists t, find_task k (tasks s) = Some t /\ ev = [UClosed (t_peer t)]).
+            (ev = [] \/ exists t, find_task k (tasks s) = Some t /\ ev = [UClosedT (t_peer t) k]).
 Proof.
   unfold signal. destruct (find_task k (tasks s)) as [t|] eqn:F.
   - destruct (t_closing t); [|destruct (t_gated t)]; intros H; injection H as <- <-.
@@ -146,7 +157,7 @@ Ltac split_all :=
 
 Ltac unfold_handlers M :=
   cbn [main_handler] in M;
-  unfold on_established, on_open, on_closed, on_sub_out, on_sub_in, on_open_fail, on_dial_fail, on_close,
+  unfold on_established, on_open, reusable, on_closed, on_sub_out, on_sub_in, on_open_fail, on_dial_fail, on_close,
          on_validation, on_hs_out_ok, on_hs_in_ok, on_hs_err, on_timer, hs_finish, svc_open, svc_force,
          task_die_op, ok, ok_ev in M;
   setters_in M.
@@ -188,18 +199,35 @@ Qed.
 Definition same_tasks (s s' : st) : Prop :=
   ps s' = ps s /\ tasks s' = tasks s /\ lastt s' = lastt s /\ ntask s' = ntask s.
 
-Lemma drain_tasks ev : forall s s' dr ks, drain s ev = (s', dr, ks) -> same_tasks s s'.
+(* draining only applies handle-side updates: any reflexive, transitive relation that those updates
+   respect holds between the state before and after *)
+Lemma drain_rel (R : st -> st -> Prop) :
+  (forall s, R s s) -> (forall s1 s2 s3, R s1 s2 -> R s2 s3 -> R s1 s3) ->
+  (forall s p, R s (set_hval s p true)) ->
+  (forall s p, R s (set_hsink (set_hopen s p true) p (lastt s p))) ->
+  (forall s p, R s (set_hsink (set_hopen s p false) p None)) ->
+  forall ev s s' dr ks, drain s ev = (s', dr, ks) -> R s s'.
 Proof.
-  induction ev as [|e t IH]; intros s s' dr ks; cbn.
-  - intros H; injection H as <- _ _. repeat split.
-  - destruct e.
+  intros Rr Rt Rv Ro Rc. induction ev as [|e t IH]; intros s s' dr ks; cbn [drain].
+  - intros H; injection H as <- _ _. apply Rr.
+  - destruct e; cbn [closed_report].
     + destruct (hval s p).
       * destruct (drain s t) as [[a b] c0] eqn:E. intros H; injection H as <- _ _. eapply IH; eauto.
-      * intros H. apply IH in H. exact H.
-    + intros H. apply IH in H. exact H.
-    + destruct (drain (set_hsink (set_hopen s p false) p None) t) as [[a b] c0] eqn:E. intros H; injection H as <- _ _.
-      apply IH in E. exact E.
+      * intros H. eapply Rt; [apply Rv|eapply IH; eauto].
+    + intros H. eapply Rt; [apply Ro|eapply IH; eauto].
+    + destruct (current s p None); [|intros H; eapply IH; eauto].
+      destruct (drain (set_hsink (set_hopen s p false) p None) t) as [[a b] c0] eqn:E. intros H; injection H as <- _ _.
+      eapply Rt; [apply Rc|eapply IH; eauto].
     + intros H. eapply IH; eauto.
     + intros H. eapply IH; eauto.
+    + destruct (current s p (Some k)); [|intros H; eapply IH; eauto].
+      destruct (drain (set_hsink (set_hopen s p false) p None) t) as [[a b] c0] eqn:E. intros H; injection H as <- _ _.
+      eapply Rt; [apply Rc|eapply IH; eauto].
+Qed.
+
+Lemma drain_tasks ev : forall s s' dr ks, drain s ev = (s', dr, ks) -> same_tasks s s'.
+Proof.
+  apply (drain_rel same_tasks); unfold same_tasks; intros; setters; repeat split; auto.
+  all: destruct H as (A1 & A2 & A3 & A4), H0 as (B1 & B2 & B3 & B4); congruence.
 Qed.
 
